@@ -425,6 +425,7 @@ func (b *builder) msg(fl *File, scope string, m *Msg) *descriptorpb.DescriptorPr
 	var fields []fieldRec
 	var reserved, extRanges [][2]int64
 	var reservedNames []string
+	declNames := map[string]bool{} // full names declared by the extension ranges of this message
 	var proto3Opt []*descriptorpb.FieldDescriptorProto
 	saved := b.cur
 	defer func() { b.cur = saved }()
@@ -514,6 +515,73 @@ func (b *builder) msg(fl *File, scope string, m *Msg) *descriptorpb.DescriptorPr
 			var ro *descriptorpb.ExtensionRangeOptions
 			for _, o := range x.Opts {
 				b.unk("extension range option %s", o.Name)
+			}
+			if x.Verification != "" || len(x.Decls) > 0 {
+				ro = &descriptorpb.ExtensionRangeOptions{}
+				switch x.Verification {
+				case "":
+				case "DECLARATION":
+					ro.Verification = descriptorpb.ExtensionRangeOptions_DECLARATION.Enum()
+				case "UNVERIFIED":
+					ro.Verification = descriptorpb.ExtensionRangeOptions_UNVERIFIED.Enum()
+					if len(x.Decls) > 0 {
+						b.rej("extension-declaration-unverified", "message %s: an extension range marked UNVERIFIED has declarations", full)
+					}
+				default:
+					b.rej("option-enum-value", "message %s: verification = %s", full, x.Verification)
+				}
+				for _, d := range x.Decls {
+					dp := &descriptorpb.ExtensionRangeOptions_Declaration{Number: proto.Int32(int32(d.Number))}
+					if d.FullName != "" {
+						dp.FullName = proto.String(d.FullName)
+					}
+					if d.Type != "" {
+						dp.Type = proto.String(d.Type)
+					}
+					if d.Reserved {
+						dp.Reserved = proto.Bool(true)
+					}
+					if d.Repeated {
+						dp.Repeated = proto.Bool(true)
+					}
+					ro.Declaration = append(ro.Declaration, dp)
+				}
+				if fl.Syntax == "2023" {
+					b.unk("extension declarations in editions")
+				}
+			}
+			// protoc's ValidateExtensionDeclaration, once per range of the statement
+			for _, r := range x.Ranges {
+				end := r[1]
+				if end == Max {
+					end = maxTag
+				}
+				nums := map[int64]bool{}
+				for _, d := range x.Decls {
+					if d.Number < r[0] || d.Number > end {
+						b.rej("extension-declaration-number-outside", "message %s: declaration number %d is not in the extension range %d to %d", full, d.Number, r[0], end)
+					}
+					if nums[d.Number] {
+						b.rej("extension-declaration-number-twice", "message %s: extension number %d is declared twice", full, d.Number)
+					}
+					nums[d.Number] = true
+					if d.FullName == "" || d.Type == "" {
+						if (d.FullName == "") != (d.Type == "") || !d.Reserved {
+							b.rej("extension-declaration-incomplete", "message %s: declaration of %d needs both full_name and type", full, d.Number)
+						}
+						continue
+					}
+					if declNames[d.FullName] {
+						b.rej("extension-declaration-name-twice", "message %s: extension name %s is declared twice", full, d.FullName)
+					}
+					declNames[d.FullName] = true
+					if !validDeclSymbol(d.FullName) {
+						b.rej("extension-declaration-name-form", "message %s: declared full_name %q is not a fully-qualified name with a leading dot", full, d.FullName)
+					}
+					if _, scalar := scalarTypes[d.Type]; !scalar && !validDeclSymbol(d.Type) {
+						b.rej("extension-declaration-type-form", "message %s: declared type %q is neither a scalar type nor a fully-qualified name with a leading dot", full, d.Type)
+					}
+				}
 			}
 			for _, r := range x.Ranges {
 				end := r[1]
@@ -991,7 +1059,91 @@ func (b *builder) field(fl *File, scope string, x *Field, extendee string, oneof
 		}
 	}
 	fd.Options = fo
+	if isExt {
+		b.checkExtensionDeclaration(fl, full, extendee, x, fd)
+	}
 	return fd
+}
+
+// validDeclSymbol: a leading dot followed by dot-separated identifiers (protoc's
+// ValidateSymbolForDeclaration).
+func validDeclSymbol(s string) bool {
+	if !strings.HasPrefix(s, ".") {
+		return false
+	}
+	for _, part := range strings.Split(s[1:], ".") {
+		if part == "" {
+			return false
+		}
+		for i, c := range part {
+			if !(c == '_' || c >= 'a' && c <= 'z' || c >= 'A' && c <= 'Z' || i > 0 && c >= '0' && c <= '9') {
+				return false
+			}
+		}
+	}
+	return true
+}
+
+// checkExtensionDeclaration is protoc's CheckExtensionDeclaration: an extension whose number lies
+// in a range that has declarations (or verification = DECLARATION) must match its declaration.
+func (b *builder) checkExtensionDeclaration(fl *File, full, extendee string, x *Field, fd *descriptorpb.FieldDescriptorProto) {
+	sym, ok := b.t.Lookup(fl.Name, extendee, full, false)
+	if !ok || sym.Kind != KMessage {
+		return
+	}
+	m, _ := sym.Node.(*Msg)
+	if m == nil {
+		return
+	}
+	var er *ExtRange
+find:
+	for _, d := range m.Body {
+		if r, ok := d.(*ExtRange); ok {
+			for _, rg := range r.Ranges {
+				end := rg[1]
+				if end == Max {
+					end = maxTag
+				}
+				if x.Number >= rg[0] && x.Number <= end {
+					er = r
+					break find
+				}
+			}
+		}
+	}
+	if er == nil {
+		return
+	}
+	for _, d := range er.Decls {
+		if d.Number != x.Number {
+			continue
+		}
+		if d.Reserved {
+			b.rej("extension-declaration-reserved", "extension %s uses number %d, which %s declares reserved", full, x.Number, sym.Name)
+			return
+		}
+		if d.FullName != "."+full {
+			b.rej("extension-declaration-name-mismatch", "extension %s has number %d, which %s declares as %s", full, x.Number, sym.Name, d.FullName)
+		}
+		actual := fd.GetTypeName()
+		if actual == "" {
+			for n, t := range scalarTypes {
+				if t == fd.GetType() {
+					actual = n
+				}
+			}
+		}
+		if actual != d.Type {
+			b.rej("extension-declaration-type-mismatch", "extension %s has type %s, %s declares %s", full, actual, sym.Name, d.Type)
+		}
+		if (fd.GetLabel() == descriptorpb.FieldDescriptorProto_LABEL_REPEATED) != d.Repeated {
+			b.rej("extension-declaration-repeated-mismatch", "extension %s: repeated differs from the declaration in %s", full, sym.Name)
+		}
+		return
+	}
+	if len(er.Decls) > 0 || er.Verification == "DECLARATION" {
+		b.rej("extension-declaration-missing", "extension %s: number %d is not declared in %s", full, x.Number, sym.Name)
+	}
 }
 
 // checkEnumUse applies "an implicit-presence (proto3) field may not use a closed (proto2) enum".
